@@ -14,6 +14,8 @@ Definition ERR_PKTBUFOVERFLOW := 72. Definition ERR_CLOUDOVERFLOW := 73. Definit
 Definition ERR_STARTBEFOREINIT := 128. Definition ERR_PCAPWRONGPATH := 129. Definition ERR_POINTCLOUDNULL := 130.
 
 Definition CLOUD_POINT_MAX := 1000000.
+(* the overflow guard of processMsopPkt as a function of the open frame's size *)
+Definition overflow_guard (n : Z) : bool := n >? CLOUD_POINT_MAX.
 
 Record cloud := mk_cloud {
   cl_seq : Z; cl_buf : Z; cl_height : Z; cl_width : Z; cl_dense : bool; cl_ts : Z; cl_points : list point }.
@@ -122,6 +124,24 @@ Definition run_pkt_cb (v : drv) (data : bytes) (ts : Z) (is_difop begin_ : bool)
      [OPkt (v_pkt_seq v) is_difop begin_ ts data])
   else (v, []).
 
+(* the sub packets of a MEMS packet (one for all types but the jumbo one); a jumbo sub packet with a
+   wrong identifier is skipped *)
+Fixpoint mems_subs (now host : Z) (k : nat) (i : Z) (v : drv) (th : throttles) (b : bytes) (ret : bool)
+  : drv * throttles * list out * bool * bytes :=
+  let d := v_desc v in let c := v_cfg v in
+  match k with
+  | O => (v, th, [], ret, b)
+  | S k' =>
+      let base := i * d_sizeof_sub d in
+      if (0 <? d_n_sub d) && negb (match_at b base (d_msop_id d)) then mems_subs now host k' (i + 1) v th b ret
+      else
+        let '(s', bo, b', es) := decode_msop_mems_sub d c (v_dec v) b base host host in
+        let '(v1, th1, o1) := feed_blocks (with_dec v s') th now [bo] in
+        let '(v2, th2, o2) := match es with Some ts => split_frame v1 th1 now ts | None => (v1, th1, []) end in
+        let '(v3, th3, o3, r3, b3) := mems_subs now host k' (i + 1) v2 th2 b' (ret || bo_split bo) in
+        (v3, th3, o1 ++ o2 ++ o3, r3, b3)
+  end.
+
 Definition process_msop (bl : build) (crc_table : list Z) (v : drv) (th : throttles) (now host : Z) (b : bytes)
   : drv * throttles * list out * bool * bytes :=
   let d := v_desc v in let c := v_cfg v in
@@ -150,20 +170,7 @@ Definition process_msop (bl : build) (crc_table : list Z) (v : drv) (th : thrott
         (v1, th1, o0 ++ o1 ++ e, mr_ret r, mr_bytes r)
     | Mems =>
         let nsub := if d_n_sub d =? 0 then 1 else d_n_sub d in
-        let fix subs (k : nat) (i : Z) (v : drv) (th : throttles) (b : bytes) (ret : bool) : drv * throttles * list out * bool * bytes :=
-          match k with
-          | O => (v, th, [], ret, b)
-          | S k' =>
-              let base := i * d_sizeof_sub d in
-              if (0 <? d_n_sub d) && negb (match_at b base (d_msop_id d)) then subs k' (i + 1) v th b ret
-              else
-                let '(s', bo, b', es) := decode_msop_mems_sub d c (v_dec v) b base host host in
-                let '(v1, th1, o1) := feed_blocks (with_dec v s') th now [bo] in
-                let '(v2, th2, o2) := match es with Some ts => split_frame v1 th1 now ts | None => (v1, th1, []) end in
-                let '(v3, th3, o3, r3, b3) := subs k' (i + 1) v2 th2 b' (ret || bo_split bo) in
-                (v3, th3, o1 ++ o2 ++ o3, r3, b3)
-          end in
-        let '(v1, th1, o1, ret, b') := subs (Z.to_nat nsub) 0 v0 th0 b false in
+        let '(v1, th1, o1, ret, b') := mems_subs now host (Z.to_nat nsub) 0 v0 th0 b false in
         (v1, th1, o0 ++ o1, ret, b')
     end.
 
